@@ -179,6 +179,10 @@ def run(chk):
                 if runs <= 2:
                     chk.sample(dict(case, status=res.status, calls=len(calls)))
     stats["cli_runs"] = runs
+    # whole-program model against the real command line (the no-op templates are among the generated ones), no plan injection
+    import whole
+    import random as _random
+    whole.whole_stream(chk, _random.Random(chk.seed * 7919 + 17), 120 if chk.tier == "quick" else 5000, stats)
     chk.coverage["rule"] = (
         "pathlib name/stem/suffix/parent/str/with_name vs the Coq model on EVERY string over %r up to length %d (rolling digests, "
         "sharded by prefix); the real Name/Base/Ext/Dir tags with every such context up to length %d; the three no-op templates "
